@@ -142,6 +142,18 @@ func zvMkPolicy(p *zpol, id string, idx uint64) *structs.ACLPolicy {
 	if p.NodeID != "" {
 		return (&structs.ACLNodeIdentity{NodeName: p.NodeID, Datacenter: "dc1"}).SyntheticPolicy(nil)
 	}
+	if p.Tmpl != "" {
+		base, _ := structs.GetACLTemplatedPolicyBase(p.Tmpl)
+		tp := &structs.ACLTemplatedPolicy{TemplateID: base.TemplateID, TemplateName: p.Tmpl}
+		if p.TmplName != "" {
+			tp.TemplateVariables = &structs.ACLTemplatedPolicyVariables{Name: p.TmplName}
+		}
+		pol, err := tp.SyntheticPolicy(nil)
+		if err != nil {
+			panic(err)
+		}
+		return pol
+	}
 	if id == "" {
 		id = zvUUID("policy", p.Label)
 	}
@@ -653,9 +665,14 @@ func TestZZVerifC08(t *testing.T) {
 		run.Floor("compiles", 20000)
 		run.Floor("resolver_resolutions", 2000)
 		run.Floor("sequences_sharing_a_policy", 2000)
+		run.Floor("purity:tokens-with-duplicate-synthetic-policy-across-kinds", 2000)
+		run.Floor("purity:sibling-resolved-after", 1000)
+		run.Floor("purity:sibling-resolved-before", 1000)
+		run.Floor("resolver:tokens-with-duplicate-synthetic-policy-across-kinds", 300)
 	} else {
 		run.Floor("race_compiles", 10000)
 		run.Floor("race_resolutions", 5000)
+		run.Floor("race_rounds_with_duplicate_synthetic_policy", 100)
 	}
 	run.Floor("decisions_compared", 1000000)
 	if run.Finish() == 1 {
@@ -706,6 +723,7 @@ func zvPartA(m *zmon, rng *core.Rand, pools map[string][]*zpol) {
 
 // Part B: purity through one shared ACLCaches.
 func zvPartB(m *zmon, rng *core.Rand, pools map[string][]*zpol) {
+	zvPartBDup(m, pools)
 	first := zvOrderedSubsets(10, 3)
 	second := zvSubsets(10, 2)
 	kinds := zvPoolOrder
@@ -879,4 +897,64 @@ func zvPartD(m *zmon, rng *core.Rand) {
 		m.run.NonTrivial(core.Hash("D", x.Description, x.Rules))
 	}
 	m.count("partD_cases", n)
+}
+
+// zvPartBDup: Compile path, one shared ACLCaches: a policy list that contains the identical synthetic
+// policy twice (rendered once from a service / node identity and once from the templated policy
+// builtin/service / builtin/node) with 0-2 ordinary policies of the pool in every position, and the
+// sibling lists (ordinary policies only; nothing; ordinary + one half of the pair), compiled before and
+// after it. Enumerated for the service and node pools.
+func zvPartBDup(m *zmon, pools map[string][]*zpol) {
+	type fam struct {
+		pool   string
+		id, tp *zpol
+	}
+	fams := []fam{
+		{"service", &zpol{Label: "svcid:web", SvcID: "web"}, &zpol{Label: "tmpl:builtin/service:web", Tmpl: "builtin/service", TmplName: "web"}},
+		{"node", &zpol{Label: "nodeid:web", NodeID: "web"}, &zpol{Label: "tmpl:builtin/node:web", Tmpl: "builtin/node", TmplName: "web"}},
+		{"key", &zpol{Label: "svcid:db", SvcID: "db"}, &zpol{Label: "tmpl:builtin/service:db", Tmpl: "builtin/service", TmplName: "db"}},
+	}
+	subsets := append([][]int{nil}, zvSubsets(10, 2)...)
+	seq := 0
+	for _, f := range fams {
+		pool := pools[f.pool]
+		for _, s := range subsets {
+			ord := zvPickPols(pool, s)
+			cat := func(xs ...[]*zpol) []*zpol {
+				var out []*zpol
+				for _, x := range xs {
+					out = append(out, x...)
+				}
+				return out
+			}
+			pair, riap := []*zpol{f.id, f.tp}, []*zpol{f.tp, f.id}
+			dups := [][]*zpol{cat(ord, pair), cat(pair, ord), cat(riap, ord), cat([]*zpol{f.id}, ord, []*zpol{f.tp})}
+			half := cat(ord, []*zpol{f.id})
+			for _, d := range dups {
+				T, S, E, H := ztoken{Pols: d}, ztoken{Pols: ord}, ztoken{}, ztoken{Pols: half}
+				seqs := [][]ztoken{{T, S}, {S, T}, {T, H, S, E}, {E, H, S, T}, {S, T, H}}
+				for k, toks := range seqs {
+					if m.run.Violations() > 30 {
+						return
+					}
+					cfgName, cfg := "server", zvServerCaches
+					if seq%2 == 1 {
+						cfgName, cfg = "no-authorizer-cache", zvNoAuthzCaches
+					}
+					seq++
+					m.runSequence("B:dup-synthetic:"+f.pool, cfgName, cfg, toks)
+					m.run.Eval()
+					m.run.NonTrivial(core.Hash("Bdup", f.pool, fmt.Sprint(s), strings.Join(zvLabels(d), "|"), fmt.Sprint(k)))
+					m.count("purity:tokens-with-duplicate-synthetic-policy-across-kinds", 1)
+					if k == 0 || k == 2 || k == 4 {
+						m.count("purity:sibling-resolved-after", 1)
+					}
+					if k == 1 || k == 3 || k == 4 {
+						m.count("purity:sibling-resolved-before", 1)
+					}
+				}
+			}
+		}
+	}
+	m.count("partB_duplicate_synthetic_sequences", seq)
 }
